@@ -51,12 +51,18 @@ def whole_input_copied(F, S):
     # the recorded size of entry i is Length() of reader i
     sz = None
     from .c05 import alias_defs, resolve
-    for nd in ph.nodes:
+    from ..through import entry_producer
+    from ..flow import substitute
+    ep = entry_producer(F, ph)
+    hostf = ep["host"] if ep else ph
+    for nd in hostf.nodes:
         if is_store(nd):
-            ks = ph.kids(nd["id"])
-            l = ph.term(ks[0])
+            ks = hostf.kids(nd["id"])
+            l = hostf.term(ks[0])
             if l[0] == "mem" and l[2] == "fileSize":
-                sz = resolve(ph.term(ks[1]), alias_defs(ph))
+                sz = resolve(hostf.term(ks[1]), alias_defs(hostf))
+                if ep and ep["subst"]:
+                    sz = substitute(sz, ep["subst"])      # the helper's parameter is the argument PrepareHeader passes
     inst = VOL + "::PrepareHeader#size-is-length"
     good = sz is not None and sz[0] == "call" and sz[1].endswith("::Length") and "fileStreamReaders" in repr(sz[2])
     if good:
@@ -137,6 +143,10 @@ def parallel_tables(F, S):
 
 def uncompressed_kind(F, S):
     ph = F.fn(VOL + "::PrepareHeader", nparams=2)
+    from ..through import entry_producer
+    ep = entry_producer(F, ph)
+    if ep:
+        ph = ep["host"]
     st = [nd for nd in ph.nodes if is_store(nd) and ph.term(ph.kids(nd["id"])[0])[0] == "mem" and ph.term(ph.kids(nd["id"])[0])[2] == "compressionType"]
     en = F.enums.get(AR + "CompressionType")
     un = [e["value"] for e in en["enumerators"] if e["name"] == "Uncompressed"][0]
